@@ -96,11 +96,12 @@ func main() {
 	shard := flag.Int("shard", 0, "")
 	of := flag.Int("of", 1, "")
 	bound := flag.Int("bound", 2, "deviation bound (ranges off the canonical order)")
+	canonOnly := flag.Bool("canon-only", false, "run only the canonical schedule of every history (cross-process comparison)")
 	flag.Parse()
 	hs := mc.OrderHistories(*tier)
 	var results []histResult
 	for i, h := range hs {
-		if i%*of != *shard && i != 0 { // history 0 is run by every process (cross-process comparison)
+		if !*canonOnly && i%*of != *shard && i != 0 { // history 0 is run by every process (cross-process comparison)
 			continue
 		}
 		w, err := world.New(h.Cfg)
@@ -109,13 +110,27 @@ func main() {
 			os.Exit(2)
 		}
 		canon := runOnce(w, h.Ops, nil)
-		// self-check: the same schedule twice gives identical observations
+		hr := histResult{Name: h.Name, Points: len(canon.trace), Canonical: canon.digest}
+		// the same history with the same schedule, executed again in this process, must give identical
+		// observations: that is the property itself (the harness owns every other source of
+		// nondeterminism: fixed keys, block times and genesis)
 		again := runOnce(w, h.Ops, canon.choices)
 		if again.digest != canon.digest {
-			fmt.Fprintln(os.Stderr, "determinism self-check failed: same schedule, different observations")
-			os.Exit(2)
+			var comp []string
+			for i, n := range []string{"events", "store", "balances"} {
+				if again.parts[i] != canon.parts[i] {
+					comp = append(comp, n)
+				}
+			}
+			hr.Violations = append(hr.Violations, mc.Violation{Prop: "C14", Sig: "replay-differs/" + strings.Join(comp, "+"), Scen: h.Name, Hist: h.Ops,
+				Detail: fmt.Sprintf("history %s executed twice in one process with the same iteration orders gives different %v; first differing event line: %s", h.Name, comp, firstDiff(canon.evLines, again.evLines))})
+			results = append(results, hr)
+			continue
 		}
-		hr := histResult{Name: h.Name, Points: len(canon.trace), Canonical: canon.digest}
+		if *canonOnly {
+			results = append(results, hr)
+			continue
+		}
 		siteSet := map[string]bool{}
 		outcomes := map[string]bool{canon.digest: true}
 		for _, p := range canon.trace {
@@ -199,7 +214,7 @@ func main() {
 		hr.Outcomes = len(outcomes)
 		results = append(results, hr)
 	}
-	if *shard == 0 {
+	if *shard == 0 && !*canonOnly {
 		// listener registration order: InvokeSetHooks ranges over a map of module names
 		h0 := hs[0]
 		w, err := world.New(h0.Cfg)
